@@ -299,7 +299,14 @@ func VH_C18_converge() {
 // nobody blocks forever, the root terminates, the call returns nil.
 func VH_C07_clustered_stop() {
 	cl := &vhCluster{}
-	n := cl.startNode(0, "127.0.0.1:7001", "id1", []string{"127.0.0.1:7001"})
+	// the node is either Up (its own seed) or still Joining (its only seed is
+	// an address nobody listens on): Stop must complete in both states
+	seeds := []string{"127.0.0.1:7001"}
+	if vrtBool() {
+		seeds = []string{"127.0.0.1:7009"}
+		vrtReach("stop-while-joining")
+	}
+	n := cl.startNode(0, "127.0.0.1:7001", "id1", seeds)
 	vrtYield()
 	sys := n.sys
 	clusterRef, err := NewRef("127.0.0.1:7001", "/@cluster")
